@@ -1,5 +1,6 @@
 #!/usr/bin/env python3
-"""Copy core.go.tmpl into the three processor overlay packages (identical text)."""
+"""Copy core.go.tmpl into the three processor overlay packages and s3.go.tmpl into the two discovery
+overlay packages that have a real S3 lister (identical text)."""
 import os
 here = os.path.dirname(os.path.abspath(__file__))
 src = open(os.path.join(here, "core.go.tmpl")).read()
@@ -7,3 +8,8 @@ for m in ("iceberg", "sql", "skeleton"):
     d = os.path.join(here, m, "internal", "processor")
     os.makedirs(d, exist_ok=True)
     open(os.path.join(d, "zz_verif_c33_core.go"), "w").write(src)
+s3 = open(os.path.join(here, "s3.go.tmpl")).read()
+for m in ("iceberg", "sql"):
+    d = os.path.join(here, m, "internal", "discovery")
+    os.makedirs(d, exist_ok=True)
+    open(os.path.join(d, "zz_verif_c33_s3.go"), "w").write(s3)
